@@ -66,6 +66,9 @@ class IntegratorCythonHelper(object):
         return '\n'.join(code)
 
     def get_parallel_range(self, start, stop=None, step=1, nogil=True):
+        if self.acceleration_eval_helper.verif_sched and stop is None:
+            # verification hook, see acceleration_eval_cython_helper.
+            return "_vsched.order(0, %s)" % start
         if nogil:
             return get_parallel_range(start, stop, step, nogil=True)
         else:
